@@ -876,11 +876,12 @@ def _order_ob(name, phases, kinds, names, layouts, timeout, **extra):
                          'two': 'sequence order and fully reversed', 'all': 'every order of the statements in the file'}[layouts]),
               timeout=timeout,
               real=REAL_VALIDATION + (('exactly_lib.cli.main_program.MainProgram.execute',
-                                       'exactly_lib.execution.partial_execution.impl.executor._PartialExecutor.execute') if via else ()),
-              stubs=(('subprocess module at process_executor / preprocessor: recording stub that starts nothing',
-                      'counting sandbox resolver (MainProgram constructor argument)', 'in-memory stdout/stderr') if via else ()),
-              entry=('MainProgram.execute([FILE])' if via else
-                     'test_case_parser.new_parser(...).apply -> parse_atc_and_validate_symbols(default actor, builtins, test case)'),
+                                       'exactly_lib.execution.partial_execution.impl.executor._PartialExecutor.execute') if via == 'cli' else ()),
+              stubs=(_STUBS_CLI if via == 'cli' else ()),
+              entry=('MainProgram.execute([FILE])' if via == 'cli' else
+                     'test_case_parser.new_parser(...).apply on the whole text -> parse_atc_and_validate_symbols(default actor, builtins, '
+                     'test case)' if via == 'text' else
+                     'real instruction parsers per statement -> parse_atc_and_validate_symbols(default actor, builtins, test case)'),
               outside=('programs of more statements; names other than the listed',))
 
 
@@ -891,151 +892,139 @@ def _phase_tuples(k: int):
             if all(lib.EXE_ORDER.index(t[i]) <= lib.EXE_ORDER.index(t[i + 1]) for i in range(k - 1))]
 
 
+def _refute(o: Ob) -> Ob:
+    o.expect = ob.REFUTE
+    return o
+
+
+def _types_ob(name, k, consts, links, ctxs, timeout, **extra):
+    return Ob(name=name, fn='k1_types', case=dict(k=k, consts=tuple(consts), links=tuple(links),
+                                                  ctxs=(ctxs if ctxs == 'match' else tuple(ctxs)), **extra),
+              kernel='K1', selector=True,
+              bound='chain X0 := one of %s; %s; then a reference to the last in %s' % (
+                  [CONSTS[i][0] for i in consts],
+                  ('%d definitions X_j := one of %s applied to X_(j-1)' % (k, [LINKS[i][0] for i in links])) if k else 'no further definition',
+                  ('the context demanding the type of the last definition' if ctxs == 'match'
+                   else 'one of the contexts %s' % [CTXS[i][0] for i in ctxs])),
+              timeout=timeout, real=REAL_VALIDATION,
+              entry='real instruction parsers per statement -> parse_atc_and_validate_symbols(default actor, builtins, test case)',
+              outside=('value forms and contexts other than the catalogued', 'strings denoting absolute paths'))
+
+
+def _chunks(seq, n):
+    return [seq[i:i + n] for i in range(0, len(seq), n)]
+
+
+_STUBS_CLI = ('subprocess module at process_executor / preprocessor: recording stub that starts nothing',
+              'counting sandbox resolver (MainProgram constructor argument)', 'in-memory stdout/stderr')
+
+
 def obligations(tier: str) -> List[Ob]:
+    """The thorough tier is the quick tier plus the larger bounds."""
     obs = []
-    quick = tier == 'quick'
-    # ---------------- K1:order
-    obs.append(_order_ob('K1:order:k1', ('setup',), 3, 3, 'canon', 300))
-    for ph in _phase_tuples(2):
-        if quick:
-            obs.append(_order_ob('K1:order:k2:%s' % '+'.join(ph), ph, 3, 2, 'canon', 600))
-        else:
-            obs.append(_order_ob('K1:order:k2:%s' % '+'.join(ph), ph, 3, 3, 'canon', 1200))
-    for ph in _phase_tuples(3):
-        if quick:
-            if set(ph) <= {'setup', 'act', 'cleanup'}:
-                obs.append(_order_ob('K1:order:k3:%s' % '+'.join(ph), ph, 2, 2, 'canon', 600))
-        else:
-            obs.append(_order_ob('K1:order:k3:%s' % '+'.join(ph), ph, 3, 2, 'canon', 2400))
-            obs.append(_order_ob('K1:order:k3-names3:%s' % '+'.join(ph), ph, 2, 3, 'canon', 1800))
-    if not quick:
-        for ph in _phase_tuples(4):
-            obs.append(_order_ob('K1:order:k4:%s' % '+'.join(ph), ph, 2, 2, 'canon', 1800))
-    obs.append(_order_ob('K1:order:seeded-oracle-error:builtin-redefinable', ('setup', 'assert'), 2, 2, 'canon', 300,
-                         oracle_bug='dup'))
-    obs[-1].expect = ob.REFUTE
-    obs.append(_order_ob('K1:order:seeded-oracle-error:table', ('setup', 'assert'), 2, 2, 'canon', 300,
-                         oracle_bug='table'))
-    obs[-1].expect = ob.REFUTE
-    # ---------------- K1: whole text (file layouts through the real document parser)
-    for ph in ((('setup', 'assert'), ('act', 'cleanup'), ('before-assert', 'before-assert')) if quick else _phase_tuples(2)):
-        obs.append(_order_ob('K1:layout:k2:%s' % '+'.join(ph), ph, 2, 2, 'all', 900, via='text'))
-    if not quick:
-        for ph in (('setup', 'act', 'assert'), ('setup', 'before-assert', 'cleanup'), ('act', 'assert', 'cleanup'),
-                   ('setup', 'setup', 'cleanup'), ('assert', 'cleanup', 'cleanup')):
-            obs.append(_order_ob('K1:layout:k3:%s' % '+'.join(ph), ph, 2, 2, 'all', 3000, via='text'))
-    # ---------------- K1: whole program
-    if quick:
-        cli = ((('setup', 'act'), 'two'), (('before-assert', 'cleanup'), 'canon'), (('assert', 'assert'), 'canon'))
-    else:
-        cli = tuple((ph, 'two') for ph in _phase_tuples(2))
-    for ph, lay in cli:
-        obs.append(_order_ob('K1:cli:k2:%s' % '+'.join(ph), ph, 2, 2, lay, 2400, via='cli'))
-    obs.append(_order_ob('K1:cli:seeded-oracle-error', ('setup', 'setup'), 2, 2, 'canon', 900, via='cli', oracle_bug='dup'))
-    obs[-1].expect = ob.REFUTE
-    # ---------------- K1:types
-    all_c, all_l, all_x = list(range(len(CONSTS))), list(range(len(LINKS))), list(range(len(CTXS)))
+    thorough = tier == 'thorough'
     cl = {c[0]: i for i, c in enumerate(CONSTS)}
     ll = {c[0]: i for i, c in enumerate(LINKS)}
     xl = {c[0]: i for i, c in enumerate(CTXS)}
+    all_c, all_l, all_x = list(range(len(CONSTS))), list(range(len(LINKS))), list(range(len(CTXS)))
 
-    def types_ob(name, k, consts, links, ctxs, timeout, **extra):
-        return Ob(name=name, fn='k1_types', case=dict(k=k, consts=tuple(consts), links=tuple(links),
-                                                      ctxs=(ctxs if ctxs == 'match' else tuple(ctxs)), **extra),
-                  kernel='K1', selector=True,
-                  bound='chain X0 := one of %s; %s; then a reference to the last in %s' % (
-                      [CONSTS[i][0] for i in consts],
-                      ('%d definitions X_j := one of %s applied to X_(j-1)' % (k, [LINKS[i][0] for i in links])) if k else 'no further definition',
-                      ('the context demanding the type of the last definition' if ctxs == 'match'
-                       else 'one of the contexts %s' % [CTXS[i][0] for i in ctxs])),
-                  timeout=timeout, real=REAL_VALIDATION,
-                  entry='real instruction parsers per statement -> parse_atc_and_validate_symbols(default actor, builtins, test case)',
-                  outside=('value forms and contexts other than the catalogued', 'strings denoting absolute paths'))
-
-    def chunks(seq, n):
-        return [seq[i:i + n] for i in range(0, len(seq), n)]
-
-    if quick:
-        for i, xs in enumerate(chunks(all_x, 6)):
-            obs.append(types_ob('K1:types:direct:%d' % i, 0, all_c, [], xs, 900))
-        for i, ls in enumerate(chunks(all_l, 7)):
-            obs.append(types_ob('K1:types:def-of-def:%d' % i, 1, all_c, ls, 'match', 900))
-        c2 = [cl[x] for x in ('string', 'list', 'path-act', 'path-result')]
-        l2 = [ll[x] for x in ('string', 'list', 'path-prefix', 'path-rel', 'path-suffix')]
-        x2 = [xl[x] for x in ('argument', 'integer', 'file-dst', 'dir-rel', 'copy-src', 'text')]
-        for c in c2:
-            obs.append(types_ob('K1:types:chain2:%s' % CONSTS[c][0], 2, [c], l2, x2, 900))
-        for i, ls in enumerate(chunks(list(range(N_WSTR_LINKS)), 6)):
-            obs.append(types_ob('K1:types:chain1:%d' % i, 1, c2, ls, list(range(N_WSTR_CTXS)), 900))
+    # ------------------------------------------------------------------ K1:order
+    obs.append(_order_ob('K1:order:k1', ('setup',), 3, 3, 'canon', 300))
+    for ph in _phase_tuples(2):
+        obs.append(_order_ob('K1:order:k2:%s' % '+'.join(ph), ph, 3, 2, 'canon', 600))
+    for ph in _phase_tuples(3):
+        if set(ph) <= {'setup', 'act', 'cleanup'}:
+            obs.append(_order_ob('K1:order:k3:%s' % '+'.join(ph), ph, 2, 2, 'canon', 600))
+    if thorough:
+        for ph in _phase_tuples(2):
+            obs.append(_order_ob('K1:order:k2-names3:%s' % '+'.join(ph), ph, 3, 3, 'canon', 1200))
+        for ph in _phase_tuples(3):
+            obs.append(_order_ob('K1:order:k3-kinds3:%s' % '+'.join(ph), ph, 3, 2, 'canon', 2400))
+            obs.append(_order_ob('K1:order:k3-names3:%s' % '+'.join(ph), ph, 2, 3, 'canon', 1800))
+        for ph in _phase_tuples(4):
+            if 'before-assert' not in ph:
+                obs.append(_order_ob('K1:order:k4:%s' % '+'.join(ph), ph, 2, 2, 'canon', 1800))
+    obs.append(_refute(_order_ob('K1:order:seeded-oracle-error:builtin-redefinable', ('setup', 'assert'), 2, 2, 'canon', 300,
+                                 oracle_bug='dup')))
+    obs.append(_refute(_order_ob('K1:order:seeded-oracle-error:table', ('setup', 'assert'), 2, 2, 'canon', 300,
+                                 oracle_bug='table')))
+    # ------------------------------------------------------------------ K1: whole text (file layouts, real document parser)
+    quick_layout = (('setup', 'assert'), ('act', 'cleanup'), ('before-assert', 'before-assert'))
+    for ph in (_phase_tuples(2) if thorough else quick_layout):
+        obs.append(_order_ob('K1:layout:k2:%s' % '+'.join(ph), ph, 2, 2, 'all', 900, via='text'))
+    if thorough:
+        for ph in (('setup', 'act', 'assert'), ('setup', 'before-assert', 'cleanup'), ('act', 'assert', 'cleanup'),
+                   ('setup', 'setup', 'cleanup'), ('assert', 'cleanup', 'cleanup')):
+            obs.append(_order_ob('K1:layout:k3:%s' % '+'.join(ph), ph, 2, 2, 'all', 3000, via='text'))
+    # ------------------------------------------------------------------ K1: whole program
+    if thorough:
+        cli = tuple((ph, 'two') for ph in _phase_tuples(2))
     else:
+        cli = ((('setup', 'act'), 'two'), (('before-assert', 'cleanup'), 'canon'), (('assert', 'assert'), 'canon'))
+    for ph, lay in cli:
+        obs.append(_order_ob('K1:cli:k2:%s' % '+'.join(ph), ph, 2, 2, lay, 2400, via='cli'))
+    obs.append(_refute(_order_ob('K1:cli:seeded-oracle-error', ('setup', 'setup'), 2, 2, 'canon', 900, via='cli',
+                                 oracle_bug='dup')))
+    # ------------------------------------------------------------------ K1:types
+    for i, xs in enumerate(_chunks(all_x, 6)):
+        obs.append(_types_ob('K1:types:direct:%d' % i, 0, all_c, [], xs, 900))
+    for i, ls in enumerate(_chunks(all_l, 7)):
+        obs.append(_types_ob('K1:types:def-of-def:%d' % i, 1, all_c, ls, 'match', 900))
+    c2 = [cl[x] for x in ('string', 'list', 'path-act', 'path-result')]
+    l2 = [ll[x] for x in ('string', 'list', 'path-prefix', 'path-rel', 'path-suffix')]
+    x2 = [xl[x] for x in ('argument', 'integer', 'file-dst', 'dir-rel', 'copy-src', 'text')]
+    for c in c2:
+        obs.append(_types_ob('K1:types:chain2:%s' % CONSTS[c][0], 2, [c], l2, x2, 900))
+    for i, ls in enumerate(_chunks(list(range(N_WSTR_LINKS)), 6)):
+        obs.append(_types_ob('K1:types:chain1:%d' % i, 1, c2, ls, list(range(N_WSTR_CTXS)), 900))
+    if thorough:
+        one_per_type = [i for i, c in enumerate(CONSTS) if c[0] not in ('path-tmp', 'path-cd', 'path-act-home', 'path-default',
+                                                                        'path-abs', 'path-home')]
         for x in all_x:
-            obs.append(types_ob('K1:types:direct+1:%s' % CTXS[x][0], 1, all_c, all_l, [x], 1800))
-        for c in all_c:
-            obs.append(types_ob('K1:types:def-of-def-of-def:%s' % CONSTS[c][0], 2, [c], all_l, 'match', 1800))
-        c2 = list(range(N_WSTR_CONSTS)) + [cl['builtin-TAB'], cl['builtin-EXACTLY_HOME'], cl['builtin-EXACTLY_RESULT'],
-                                           cl['builtin-EXACTLY_ACT']]
-        l2 = list(range(N_WSTR_LINKS))
-        x2 = list(range(N_WSTR_CTXS))
-        for c in c2:
-            obs.append(types_ob('K1:types:chain2:%s' % CONSTS[c][0], 2, [c], l2, x2, 1800))
+            obs.append(_types_ob('K1:types:direct+1:%s' % CTXS[x][0], 1, one_per_type, all_l, [x], 1800))
+        for c in one_per_type:
+            if CONSTS[c][1] is not None:
+                obs.append(_types_ob('K1:types:def-of-def-of-def:%s' % CONSTS[c][0], 2, [c], all_l, 'match', 1800))
+        c2t = [cl[x] for x in ('string', 'list', 'path-act', 'path-home', 'path-result', 'path-abs', 'builtin-TAB',
+                               'builtin-EXACTLY_HOME', 'builtin-EXACTLY_RESULT', 'builtin-EXACTLY_ACT')]
+        for c in c2t:
+            obs.append(_types_ob('K1:types:chain2-all:%s' % CONSTS[c][0], 2, [c], list(range(N_WSTR_LINKS)),
+                                 list(range(N_WSTR_CTXS)), 2400))
         c3 = [cl[x] for x in ('string', 'list', 'path-act', 'path-result', 'path-home')]
         l3 = [ll[x] for x in ('string', 'list', 'path-prefix', 'path-rel', 'path-suffix', 'string-TAB-x')]
-        x3 = [xl[x] for x in ('argument', 'integer', 'file-dst', 'dir-rel', 'copy-src', 'text')]
         for c in c3:
-            obs.append(types_ob('K1:types:chain3:%s' % CONSTS[c][0], 3, [c], l3, x3, 2400))
-    obs.append(types_ob('K1:types:seeded-oracle-error:direct-only', 2, [cl['list']], [ll['string']], [xl['integer']], 300,
-                        oracle_bug=True))
-    obs[-1].expect = ob.REFUTE
-    # ---------------- K2
-    for k, drefs in ((1, False), (2, True)) if quick else ((1, False), (2, True), (3, True)):
+            obs.append(_types_ob('K1:types:chain3:%s' % CONSTS[c][0], 3, [c], l3, x2, 2400))
+    obs.append(_refute(_types_ob('K1:types:seeded-oracle-error:direct-only', 2, [cl['list']], [ll['string']], [xl['integer']], 300,
+                                 oracle_bug=True)))
+    # ------------------------------------------------------------------ K2
+    for k, drefs in (((1, False), (2, True), (3, True)) if thorough else ((1, False), (2, True))):
         obs.append(Ob(name='K2:visibility:k%d' % k, fn='k2_visibility', case=dict(k=k, drefs=drefs), kernel='K2',
                       selector=True,
                       bound='%d real `def string` instructions named A, B, C, each in any of the phases %s (sequence order = '
                             'file order inside a phase), each a constant or built from the previously defined symbol; probe '
                             'instructions before and after every definition in every phase and a probe action to check' % (
                                 k, list(K2_PHASES)),
-                      timeout=300 * k * k, real=REAL_K2,
+                      timeout=(300, 600, 1800)[k - 1], real=REAL_K2,
                       stubs=('stub probe instructions / stub actor (vsym.exeharness)', 'deterministic sandbox resolver'),
                       entry='full_execution.execution.execute on real def instructions + probes',
                       outside=('symbol tables handed to the validation steps (they see all definitions by design)',)))
-    obs.append(Ob(name='K2:seeded-oracle-error', fn='k2_visibility', case=dict(k=1, drefs=False, oracle_bug=True),
-                  kernel='K2', selector=True, bound='seeded: a definition is visible from the start of its phase',
-                  timeout=300, expect=ob.REFUTE))
-    # ---------------- K3
-    maxlen = 2 if quick else 3
-    for name, prog in K3_PROGRAMS.items():
-        used = _k3_used(prog)
-        obs.append(Ob(name='K3:%s' % name, fn='k3_substitution', case=dict(program=name, maxlen=maxlen, used=used),
-                      kernel='K3',
-                      bound='program `%s` with %s: every string value of <= %d characters (any characters), L of 0..2 elements' % (
-                          '; '.join(l for _, l in k3_program(prog, _K3_DUMMY_ENV)[0]),
-                          ', '.join({'S': 'string S', 'T': 'string T', 'L': 'list L'}[u] for u in used), maxlen),
-                      timeout=600 if quick else 2400, real=REAL_K3,
-                      stubs=('S, T, L are predefined symbols holding constant SDVs with symbolic values',),
-                      entry='real def parser -> parse_atc_and_validate_symbols -> sdv.resolve(symbols).value_when_no_dir_dependencies()',
-                      outside=('the syntax of the VALUES of S, T, L (they are not parsed: C09)', 'paths inside strings (K3:cli, C12)')))
-    real_k3c = REAL_K3 + ('exactly_lib.cli.main_program.MainProgram.execute',
-                          'exactly_lib.type_val_deps.types.string_.strings_ddvs.PathFragmentDdv',
-                          'exactly_lib.type_val_deps.types.string_.string_sdv_impls.SymbolStringFragmentSdv.resolve',
-                          'exactly_lib.type_val_deps.types.path.path_sdvs.reference',
-                          'exactly_lib.impls.types.path.parse_path._Parser',
-                          'exactly_lib.impls.instructions.multi_phase.define_symbol.parser.TheInstructionEmbryo.main')
-    k3c = [(0, 3, (0, 5))] if quick else [(q, len(K3C_L), (0, 5)) for q in range(len(K3C_PROBE))] + [(0, 2, (5, len(K3C_P)))]
-    for q, nlists, (plo, phi) in k3c:
-        obs.append(Ob(name='K3:cli:probe-in-%s%s' % (K3C_PROBE[q][0], ':builtin-dirs' if plo else ''), fn='k3_cli',
-                      case=dict(only=q, lists=nlists, paths=(plo, phi)), kernel='K3',
-                      selector=True,
-                      bound='def string S = one of %s; def list L = one of %s; def path P = one of %s; '
-                            'def string T = "p @[L]@ q @[P]@"; def path P2 = @[P]@/sub; probe `%s%s` in phase %s' % (
-                                [x[0] for x in K3C_S], [x[0] for x in K3C_L[:nlists]], [x[0] for x in K3C_P[plo:phi]],
-                                K3C_PROBE[q][1], K3C_ARGS, K3C_PROBE[q][0]),
-                      timeout=2400, real=real_k3c,
-                      stubs=('subprocess module at process_executor / preprocessor: recording stub that starts nothing',
-                             'counting sandbox resolver (MainProgram constructor argument)', 'in-memory stdout/stderr'),
-                      entry='MainProgram.execute([FILE]); observation: argv handed to subprocess.call',
-                      outside=('path values other than the catalogued (C12)',)))
-    obs.append(Ob(name='K3:cli:seeded-oracle-error', fn='k3_cli', case=dict(only=0, lists=1, paths=(0, 2), oracle_bug=True), kernel='K3',
-                  selector=True, bound='seeded: the oracle joins list elements by commas', timeout=900, expect=ob.REFUTE))
+    obs.append(_refute(Ob(name='K2:seeded-oracle-error', fn='k2_visibility', case=dict(k=1, drefs=False, oracle_bug=True),
+                          kernel='K2', selector=True, bound='seeded: a definition is visible from the start of its phase',
+                          timeout=300)))
+    # ------------------------------------------------------------------ K3
+    for maxlen in ((2, 3) if thorough else (2,)):
+        for name, prog in K3_PROGRAMS.items():
+            used = _k3_used(prog)
+            obs.append(Ob(name='K3:%s%s' % (name, ':len3' if maxlen == 3 else ''), fn='k3_substitution',
+                          case=dict(program=name, maxlen=maxlen, used=used), kernel='K3',
+                          bound='program `%s` with %s: every string value of <= %d characters (any characters), L of 0..2 elements' % (
+                              '; '.join(l for _, l in k3_program(prog, _K3_DUMMY_ENV)[0]),
+                              ', '.join({'S': 'string S', 'T': 'string T', 'L': 'list L'}[u] for u in used), maxlen),
+                          timeout=600 if maxlen == 2 else 2400, real=REAL_K3,
+                          stubs=('S, T, L are predefined symbols holding constant SDVs with symbolic values',),
+                          entry='real def parser -> parse_atc_and_validate_symbols -> sdv.resolve(symbols).value_when_no_dir_dependencies()',
+                          outside=('the syntax of the VALUES of S, T, L (they are not parsed: C09)',
+                                   'paths inside strings (K3:cli, C12)')))
     real_k3t = ('exactly_lib.symbol.symbol_syntax.split', 'exactly_lib.symbol.symbol_syntax._extract_fragment',
                 'exactly_lib.symbol.symbol_syntax._find_symbol_reference', 'exactly_lib.symbol.symbol_syntax._extract_symbol_name',
                 'exactly_lib.impls.types.string_.parse_string.parse_string_sdv_from_token',
@@ -1043,26 +1032,50 @@ def obligations(tier: str) -> List[Ob]:
                 'exactly_lib.execution.impl.symbol_validation.validate_symbol_usages',
                 'exactly_lib.type_val_deps.types.string_.string_sdv_impls.SymbolStringFragmentSdv.resolve',
                 'exactly_lib.type_val_deps.types.string_.string_ddv.StringDdv.value_when_no_dir_dependencies')
-    for label, mid, palpha, plen, qalpha, qlen, vlen in (
-            (('S', '@[S]@', '@[a]', 3, ']@', 1, 2), ('SS', '@[S]@@[S]@', '@[a', 2, ']@', 1, 2)) if quick else
-            (('S', '@[S]@', '@[a]', 4, ']@a', 2, 3), ('SS', '@[S]@@[S]@', '@[a]', 3, ']@', 2, 2),
-             ('SxS', '@[S]@]@[S]@', '@[a_', 3, ']@', 1, 2))):
+    k3t = [('S', '@[S]@', '@[a]', 3, ']@', 1, 2), ('SS', '@[S]@@[S]@', '@[a', 2, ']@', 1, 2)]
+    if thorough:
+        k3t += [('S', '@[S]@', '@[a]', 4, ']@', 1, 2), ('SS', '@[S]@@[S]@', '@[a]', 3, ']@', 2, 2),
+                ('SxS', '@[S]@]@[S]@', '@[a_', 3, ']@', 1, 2)]
+    for label, mid, palpha, plen, qalpha, qlen, vlen in k3t:
         obs.append(Ob(name='K3:text:%s:p%dq%d' % (label, plen, qlen), fn='k3_text',
                       case=dict(mid=mid, palpha=palpha, plen=plen, qalpha=qalpha, qlen=qlen, vlen=vlen), kernel='K3',
                       bound='soft-quoted string P%sQ with every P of <= %d characters over %r and every Q of <= %d characters over '
                             '%r (selectors), S defined with every value of <= %d characters (symbolic)' % (
                                 mid, plen, palpha, qlen, qalpha, vlen),
-                      timeout=1200 if quick else 3000, real=real_k3t,
+                      timeout=600 if plen <= 3 and qlen <= 1 else 3000, real=real_k3t,
                       stubs=('the Token object is built by the harness (the tokenizer is C09)',),
                       entry='parse_string.parse_string_sdv_from_token -> validate_symbol_usages -> resolve',
                       outside=('characters outside the alphabets', 'tokenization and quoting (C09)')))
-    obs.append(Ob(name='K3:text:seeded-oracle-error', fn='k3_text',
-                  case=dict(mid='@[S]@', palpha='@[a', plen=2, qalpha=']', qlen=0, vlen=0, oracle_bug=True),
-                  kernel='K3', bound='seeded: after an incomplete `@[` the oracle resumes reading two characters late',
-                  timeout=600, expect=ob.REFUTE))
-    obs.append(Ob(name='K3:seeded-oracle-error', fn='k3_substitution',
-                  case=dict(program='list:a-L-b', maxlen=1, used='L', oracle_bug=True), kernel='K3',
-                  bound='seeded: the oracle drops the last element', timeout=300, expect=ob.REFUTE))
+    obs.append(_refute(Ob(name='K3:text:seeded-oracle-error', fn='k3_text',
+                          case=dict(mid='@[S]@', palpha='@[a', plen=2, qalpha=']', qlen=0, vlen=0, oracle_bug=True),
+                          kernel='K3', bound='seeded: after an incomplete `@[` the oracle resumes reading two characters late',
+                          timeout=600)))
+    real_k3c = REAL_K3 + ('exactly_lib.cli.main_program.MainProgram.execute',
+                          'exactly_lib.type_val_deps.types.string_.strings_ddvs.PathFragmentDdv',
+                          'exactly_lib.type_val_deps.types.path.path_sdvs.reference',
+                          'exactly_lib.impls.types.path.parse_path._Parser',
+                          'exactly_lib.impls.instructions.multi_phase.define_symbol.parser.TheInstructionEmbryo.main',
+                          'exactly_lib.cli_default.program_modes.test_case.builtin_symbols.test_case_dir_symbols.ALL')
+    k3c = [(0, 3, (0, 5))]
+    if thorough:
+        k3c = [(q, len(K3C_L), (0, 5)) for q in range(len(K3C_PROBE))] + [(0, 2, (5, len(K3C_P)))]
+    for q, nlists, (plo, phi) in k3c:
+        obs.append(Ob(name='K3:cli:probe-in-%s%s' % (K3C_PROBE[q][0], ':builtin-dirs' if plo else ''), fn='k3_cli',
+                      case=dict(only=q, lists=nlists, paths=(plo, phi)), kernel='K3', selector=True,
+                      bound='def string S = one of %s; def list L = one of %s; def path P = one of %s; '
+                            'def string T = "p @[L]@ q @[P]@"; def path P2 = @[P]@/sub; probe `%s%s` in phase %s' % (
+                                [x[0] for x in K3C_S], [x[0] for x in K3C_L[:nlists]], [x[0] for x in K3C_P[plo:phi]],
+                                K3C_PROBE[q][1], K3C_ARGS, K3C_PROBE[q][0]),
+                      timeout=2400, real=real_k3c, stubs=_STUBS_CLI,
+                      entry='MainProgram.execute([FILE]); observation: argv handed to subprocess.call',
+                      outside=('path values other than the catalogued (C12)',)))
+    obs.append(_refute(Ob(name='K3:cli:seeded-oracle-error', fn='k3_cli', case=dict(only=0, lists=1, paths=(0, 2), oracle_bug=True),
+                          kernel='K3', selector=True, bound='seeded: the oracle joins list elements by commas', timeout=900)))
+    obs.append(_refute(Ob(name='K3:seeded-oracle-error', fn='k3_substitution',
+                          case=dict(program='list:a-L-b', maxlen=1, used='L', oracle_bug=True), kernel='K3',
+                          bound='seeded: the oracle drops the last element', timeout=300)))
+    names = [o.name for o in obs]
+    assert len(names) == len(set(names)), 'duplicate obligation names'
     return obs
 
 
